@@ -306,6 +306,24 @@ def sweep(ctx, n):
             if not (same_set(got[0], want) and same_set(got[1], want) and kw_same):
                 bad("custom-trace-frames", f"a user model3d trace (plotly Scatter3d, static kwargs) on an object shown at frames {frames}: drawn points are not the given points placed at each frame's pose "
                     f"(first show ok: {same_set(got[0], want)}, second show ok: {same_set(got[1], want)}, user's kwargs unchanged: {kw_same})", {"frames": frames, "path_length": m})
+        # line currents written in SMALL numbers (a nanometre-scale loop, a micrometre meander given at a large offset, a finely sampled
+        # curve): every vertex of the object is a vertex of the drawn line, in order
+        for trial in range(max(3, n // 8)):
+            nps = np.random.default_rng(rng.randrange(2**31))
+            sc_ = 10.0 ** rng.choice([-9, -8, -7, -6, -3, 0])
+            off_ = np.array([rng.choice([0.0, 0.0, 0.8, -3.0]), 0.0, 0.0])
+            nv = rng.choice([4, 6, 9])
+            vloc = np.cumsum(nps.uniform(0.2, 1.0, (nv, 3)) * nps.choice([-1, 1], (nv, 3)), axis=0) * sc_ + off_
+            pl = magpy.current.Polyline(vertices=vloc, current=1.0, style_arrow_show=False)
+            fig = magpy.show(pl, backend="plotly", return_fig=True, units_length="m")
+            done += 1
+            kinds["polyline-small-numbers"] = kinds.get("polyline-small-numbers", 0) + 1
+            drawn = [xyz(t) for t in fig.data if type(t).__name__ == "Scatter3d"]
+            pts_ = np.concatenate(drawn) if drawn else np.zeros((0, 3))
+            missing = [k_ for k_, v_ in enumerate(vloc) if pts_.size == 0 or np.min(np.linalg.norm(pts_ - v_, axis=1)) > 1e-6 * sc_]
+            if missing:
+                bad("polyline-vertices-missing", f"a Polyline with segments of about {sc_:g} m (given around x = {off_[0]:g} m): vertices {missing[:5]} of {nv} are not on the drawn line",
+                    {"scale": sc_, "offset": off_.tolist(), "vertices": vloc.tolist(), "missing": missing})
         done += mapback_section(magpy, rng, n, bad, kinds)
         done += units_section(magpy, rng, bad, kinds)
     return fails, {"c19_figures": done, "c19_kinds": kinds}
